@@ -6,8 +6,9 @@
   `dateutil.rrule(freq, interval = k, dtstart, until)` is *modelled* as "start at `dtstart`, add `k` units while
   `≤ until`" (assumption, sampled by the correspondence check); for month-based frequencies only for a day of
   month ≤ 28 (rrule skips impossible dates, which the property excludes), keeping the time of day.
-  `dt_bump` for period strings (src/pyg_base/_dates.py:388-418) is modelled locally (`bump1`), independent of the
-  C09 model; month arithmetic comes from `Civil`.  Core Lean only.
+  `dt_bump` for period strings (src/pyg_base/_dates.py:388-418) is written out here as total integer functions
+  (`bump1`, month arithmetic from `Civil`); PygProofs/Lemmas/DRangeBump.lean proves it equal to the C09 model
+  `Pyg.Bump` (generated kernels + `Pyg.Greg`) wherever that model returns a value.  Core Lean only.
 -/
 import PygModel.Basic
 import PygModel.Civil
